@@ -563,7 +563,6 @@ def execute(events, recs, spec, mesh_depth, init):
     # pylint: disable=too-many-return-statements
     env = dict(spec.get("extents", {}))
     env["max_halo_depth_mesh"] = mesh_depth
-    nfld = len(spec["fields"])
     fcont = [G.is_continuous_space(s) for s in spec["fields"]]
     annexed_cfg = bool(spec["annexed"])
     # one state slot per field / per component of a field vector
